@@ -64,9 +64,11 @@ def main():
             print("cannot apply to /repo:", ap.stderr[:300])
         else:
             for p in props:
-                r = sh(f"cd {ROOT} && ./vcheck {p} --no-evidence 2>&1 | cut -c1-400 | tail -6")
-                code = sh(f"cd {ROOT} && ./vcheck {p} --no-evidence >/dev/null 2>&1; echo $?") if False else None
-                lines = r.stdout.strip().splitlines()
+                r = sh(f"cd {ROOT} && ./vcheck {p} --no-evidence 2>&1 | cut -c1-400")
+                allout = r.stdout.strip().splitlines()
+                # verdict lines first (a long list of UNDECIDED members must not push the VIOLATION lines out)
+                lines = [l for l in allout if l.startswith(("VIOLATION", "HELD"))] + \
+                        [l for l in allout if not l.startswith(("VIOLATION", "HELD"))]
                 verdict = "VIOLATION" if any(l.startswith("VIOLATION") for l in lines) else (
                     "HELD" if any(l.startswith("HELD") for l in lines) else "OTHER")
                 results[p] = {"verdict": verdict, "lines": lines[:6]}
